@@ -2455,6 +2455,7 @@ avx_rule_addssl_slow (OrcCompiler *p, void *user, OrcInstruction *insn)
 
   const int s = orc_compiler_get_temp_reg (p);
   const int t = orc_compiler_get_temp_reg (p);
+  const int u = orc_compiler_get_temp_reg (p);
 
   /*
      From Tim Terriberry: (slightly faster than above)
@@ -2484,32 +2485,34 @@ avx_rule_addssl_slow (OrcCompiler *p, void *user, OrcInstruction *insn)
     orc_avx_emit_movdqa (p, src0, s);
     orc_avx_emit_movdqa (p, src0, t);
     orc_avx_emit_pxor (p, src0, src1, s);
+    /* dest may share a register with src1: take its sign before writing dest */
+    orc_avx_emit_psrad_imm (p, 31, src1, u);
     orc_avx_emit_paddd (p, src0, src1, dest);
     orc_avx_emit_pxor (p, t, dest, t);
     int tmp = orc_compiler_get_constant (p, 4, 0xffffffff);
     orc_avx_emit_pxor (p, t, tmp, t);
     orc_avx_emit_por (p, s, t, s);
     orc_avx_emit_psrad_imm (p, 31, s, s);
-    orc_avx_emit_psrad_imm (p, 31, src1, t);
     orc_avx_emit_pand (p, dest, s, dest);
     tmp = orc_compiler_get_constant (p, 4, 0x7fffffff);
-    orc_avx_emit_pxor (p, t, tmp, t);
+    orc_avx_emit_pxor (p, u, tmp, t);
     orc_avx_emit_pandn (p, s, t, s);
     orc_avx_emit_por (p, dest, s, dest);
   } else {
     orc_avx_sse_emit_movdqa (p, src0, s);
     orc_avx_sse_emit_movdqa (p, src0, t);
     orc_avx_sse_emit_pxor (p, src0, src1, s);
+    /* dest may share a register with src1: take its sign before writing dest */
+    orc_avx_sse_emit_psrad_imm (p, 31, src1, u);
     orc_avx_sse_emit_paddd (p, src0, src1, dest);
     orc_avx_sse_emit_pxor (p, t, dest, t);
     int tmp = orc_compiler_get_constant (p, 4, 0xffffffff);
     orc_avx_sse_emit_pxor (p, t, tmp, t);
     orc_avx_sse_emit_por (p, s, t, s);
     orc_avx_sse_emit_psrad_imm (p, 31, s, s);
-    orc_avx_sse_emit_psrad_imm (p, 31, src1, t);
     orc_avx_sse_emit_pand (p, dest, s, dest);
     tmp = orc_compiler_get_constant (p, 4, 0x7fffffff);
-    orc_avx_sse_emit_pxor (p, t, tmp, t);
+    orc_avx_sse_emit_pxor (p, u, tmp, t);
     orc_avx_sse_emit_pandn (p, s, t, s);
     orc_avx_sse_emit_por (p, dest, s, dest);
   }
